@@ -162,7 +162,17 @@ def run(tier: str, seed: int) -> int:
     depth = 3 if tier == "quick" else 4
     total_states = total_trans = 0
     for tname, (cfg, ranges) in topologies(tier).items():
-        net, vms = build(cfg, ranges)
+        try:
+            net, vms = build(cfg, ranges)
+        except Exception as e:  # noqa: BLE001
+            import traceback
+
+            frames = traceback.extract_tb(e.__traceback__)
+            if not frames or "/vt/" in frames[-1].filename:
+                raise  # the harness's own mistake
+            rep.violation(f"[{tname}] building the network from valid parameters failed with {type(e).__name__}: {e}", {"topology": tname, "cfg": cfg},
+                          {"part": "build", "what": type(e).__name__})
+            continue
         errs = invariant(net)
         if errs:
             rep.violation(f"[{tname}] built network is inconsistent: {errs[0]}", {"topology": tname, "cfg": cfg}, {"part": "build", "what": errs[0].split(" ")[1][:20]})
